@@ -4,7 +4,6 @@
 
       an Enum member under use_enum_value                        C11-ENUM-TYPE (the type check is skipped)
       a nan when the precision in force is 0 digits              C11-SIG0-NAN  (int(round(nan, 0)))
-      a date / timedelta under truncate_datetime                 C11-TRUNC-DATE (obj.replace(microsecond=...))
       a datetime / date / time / timedelta under
         ignore_numeric_type_changes                              C11-NUMGROUP-DATETIME (they are in helper.numbers)
       a datetime / date / time / timedelta DICT KEY when key
@@ -28,8 +27,7 @@ Definition quiet (F : opts) (a : atom) : bool :=
   match a with
   | AEnum _ _ _ _ => negb (o_enum F)
   | ANan _ => negb (sig0 F)
-  | ADate _ _ _ | ATd _ => negb (has_trunc F) && negb (o_numty F)
-  | ADt _ _ | ATime _ => negb (o_numty F)
+  | ADt _ _ | ADate _ _ _ | ATime _ | ATd _ => negb (o_numty F)      (* (a date / timedelta under truncate_datetime raised before 1c8f0f8) *)
   | _ => true
   end.
 Definition key_quiet (F : opts) (k : atom) : bool :=
@@ -83,20 +81,13 @@ Proof.
     rewrite Ea, Eb. cbn [bind]. destruct ta, tb; eexists; reflexivity.
 Qed.
 
-Lemma norm_any_ok : forall a, quiet F a = true -> dt_like a = true -> exists a', norm_any F a = Ok a'.
-Proof.
-  intros a Q H. destruct a; cbn [dt_like] in H; try discriminate; cbn [norm_any]; try (eexists; reflexivity).
-  - cbn [quiet] in Q. apply andb_true_iff in Q. destruct Q as [Q _]. unfold has_trunc in Q.
-    destruct (o_trunc F); [discriminate|]. eexists; reflexivity.
-  - cbn [quiet] in Q. apply andb_true_iff in Q. destruct Q as [Q _]. unfold has_trunc in Q.
-    destruct (o_trunc F); [discriminate|]. eexists; reflexivity.
-Qed.
+Lemma norm_any_ok : forall a, exists a', norm_any F a = Ok a'.
+Proof. intros a. destruct a; cbn [norm_any]; eexists; reflexivity. Qed.
 
 (* under ignore_numeric_type_changes no datetime-like atom is quiet *)
 Lemma quiet_numty : forall a, o_numty F = true -> quiet F a = true -> dt_like a = false.
 Proof.
-  intros a Hn Q. destruct a; cbn [quiet dt_like] in *; try reflexivity; rewrite Hn in Q; cbn in Q;
-    rewrite ?andb_false_r in Q; discriminate.
+  intros a Hn Q. destruct a; cbn [quiet dt_like] in *; try reflexivity; rewrite Hn in Q; cbn in Q; discriminate.
 Qed.
 
 (* the comparer picked for two quiet atoms that passed the type test of _diff does not raise *)
@@ -144,8 +135,7 @@ Proof.
   - (* date *)
     destruct Hty as [H|H]; [|destruct (Hg H) as [[K _]|[_ [_ [K _]]]]; discriminate K].
     destruct b; cbn in H; try discriminate. unfold timeD.
-    destruct (o_trunc F) eqn:Et; [|eexists; reflexivity].
-    cbn [quiet] in Qa. unfold has_trunc in Qa. rewrite Et in Qa. discriminate.
+    destruct (o_trunc F) eqn:Et; [|eexists; reflexivity]. cbn [norm_any bind]. eexists; reflexivity.
   - (* time *)
     destruct Hty as [H|H]; [|destruct (Hg H) as [[K _]|[_ [_ [K _]]]]; discriminate K].
     destruct b; cbn in H; try discriminate. unfold timeD.
@@ -153,8 +143,7 @@ Proof.
   - (* timedelta *)
     destruct Hty as [H|H]; [|destruct (Hg H) as [[K _]|[_ [_ [K _]]]]; discriminate K].
     destruct b; cbn in H; try discriminate. unfold timeD.
-    destruct (o_trunc F) eqn:Et; [|eexists; reflexivity].
-    cbn [quiet] in Qa. unfold has_trunc in Qa. rewrite Et in Qa. discriminate.
+    destruct (o_trunc F) eqn:Et; [|eexists; reflexivity]. cbn [norm_any bind]. eexists; reflexivity.
 Qed.
 
 Lemma quiet_enum : forall a, quiet F a = true -> o_enum F && is_enum a = false.
